@@ -64,8 +64,36 @@ def gen_program(rng, tier):
         else:
             pat = rand_pattern(rng, es, 0.5)
         types.append(PT(et, t_cur, lay, pat, acc))
-    if any(prod1(es) > imax(ty.t) or any(v > imax(ty.t) for v in es + ss) for ty in types):
+    # a second mapping value of type 0 (same type, different state): other dynamic extents and / or other strides
+    ty0 = types[0]
+    es2 = [e if p != DYN or rng.random() < 0.4 else rng.choice([1, 2, 3, 4]) for e, p in zip(es, ty0.pat)]
+    if ty0.lay == 2:
+        ss2 = rng.choice([left_strides(es2), right_strides(es2), [2 * x for x in left_strides(es2)], [3 * x for x in right_strides(es2)]])
+    else:
+        ss2 = left_strides(es2) if ty0.lay == 0 else right_strides(es2)
+    span2 = 1 + sum((e - 1) * x for e, x in zip(es2, ss2))
+    if any(prod1(es) > imax(ty.t) or any(v > imax(ty.t) for v in es + ss + es2 + ss2 + [span2]) for ty in types):
         return None
+    if span2 > 48:
+        return None
+    def canon_of(lay_, e_):
+        return left_strides(e_) if lay_ == 0 else right_strides(e_)
+    def conv_ok(val, k):
+        """may a view holding (extents, strides, layout) be converted to type k?"""
+        e_, s_, l_ = val
+        tk_ = types[k]
+        if any(p != DYN and p != x for p, x in zip(tk_.pat, e_)):
+            return False
+        if tk_.lay != 2 and l_ == 2 and list(s_) != canon_of(tk_.lay, e_):
+            return False
+        return True
+    def conv_val(val, k):
+        e_, s_, l_ = val
+        tk_ = types[k]
+        if tk_.lay == 2:
+            return (e_, s_ if l_ == 2 else canon_of(l_, e_), 2)
+        return (e_, canon_of(tk_.lay, e_), tk_.lay)
+    vals = []           # per variable: (extents, strides, layout) it currently holds
     # operations
     nops = rng.randrange(6, 13) if tier == "quick" else rng.randrange(8, 40)
     vars_ = []          # type index per variable
@@ -83,8 +111,11 @@ def gen_program(rng, tier):
         if ty.acc == 1:
             kinds = [7]                              # the other forms default-construct the accessor
         kind = rng.choice(kinds)
+        if len(vars_) >= 1 and (es2 != es or ss2 != ss) and rng.random() < 0.6:
+            kind = 8                                 # (handle, the second mapping value, accessor)
         h = rng.choice([x for x in range(8) if x not in used_h]); used_h.add(h)
         v = newvar(0)
+        vals.append((es2, ss2, ty.lay) if kind == 8 else (es, ss if ty.lay == 2 else canon_of(ty.lay, es), ty.lay))
         ops.append([0, 0, kind, h])
         T = "T0"
         hexpr = "drv::make_handle<typename T0::data_handle_type>::make(base, %d)" % h
@@ -103,6 +134,8 @@ def gen_program(rng, tier):
             code.append("%s v%d(%s, typename T0::extents_type(std::array<I0, %d>{%s}));" % (T, v, hexpr, R, allv))
         elif kind == 6:
             code.append("%s v%d(%s, m0);" % (T, v, hexpr))
+        elif kind == 8:
+            code.append("%s v%d(%s, m1, drv::make_acc<typename T0::accessor_type>::make(%d));" % (T, v, hexpr, h))
         else:
             code.append("%s v%d(%s, m0, drv::make_acc<typename T0::accessor_type>::make(%d));" % (T, v, hexpr, h))
         if kind in (0, 1, 2, 3, 5, 6) and ty.acc == 1:
@@ -114,7 +147,7 @@ def gen_program(rng, tier):
             same[ty].append(i)
         choice = rng.choice(["copy", "move", "assign", "massign", "swap", "conv", "conv", "aconv"])
         if choice in ("copy", "move") and len(vars_) < 7:
-            src = rng.randrange(len(vars_)); v = newvar(vars_[src])
+            src = rng.randrange(len(vars_)); v = newvar(vars_[src]); vals.append(vals[src])
             ops.append([1 if choice == "copy" else 2, src])
             code.append("T%d v%d(%s);" % (vars_[src], v, ("v%d" % src) if choice == "copy" else ("std::move(v%d)" % src)))
         elif choice in ("assign", "massign", "swap"):
@@ -123,26 +156,26 @@ def gen_program(rng, tier):
                 continue
             a, b = rng.sample(rng.choice(cands), 2)
             if choice == "swap":
-                ops.append([5, a, b]); code.append("swap(v%d, v%d);" % (a, b))
+                ops.append([5, a, b]); code.append("swap(v%d, v%d);" % (a, b)); vals[a], vals[b] = vals[b], vals[a]
             elif choice == "assign":
-                ops.append([3, a, b]); code.append("v%d = v%d;" % (a, b))
+                ops.append([3, a, b]); code.append("v%d = v%d;" % (a, b)); vals[a] = vals[b]
             else:
-                ops.append([4, a, b]); code.append("v%d = std::move(v%d);" % (a, b))
+                ops.append([4, a, b]); code.append("v%d = std::move(v%d);" % (a, b)); vals[a] = vals[b]
         elif choice == "conv" and len(vars_) < 7:
             src = rng.randrange(len(vars_))
-            tgts = [k for k in range(len(types)) if k > vars_[src]]
+            tgts = [k for k in range(len(types)) if k > vars_[src] and conv_ok(vals[src], k)]
             if not tgts:
                 continue
             k = tgts[0] if rng.random() < 0.7 else rng.choice(tgts)
-            v = newvar(k)
+            v = newvar(k); vals.append(conv_val(vals[src], k))
             ops.append([6, src, k]); code.append("T%d v%d(v%d);" % (k, v, src))
         elif choice == "aconv":
-            pairs = [(a, b) for a in range(len(vars_)) for b in range(len(vars_)) if vars_[a] > vars_[b]]
+            pairs = [(a, b) for a in range(len(vars_)) for b in range(len(vars_)) if vars_[a] > vars_[b] and conv_ok(vals[b], vars_[a])]
             if not pairs:
                 continue
-            a, b = rng.choice(pairs)
+            a, b = rng.choice(pairs); vals[a] = conv_val(vals[b], vars_[a])
             ops.append([7, a, b]); code.append("v%d = T%d(v%d);" % (a, vars_[a], b))
-    return types, es, ss, ops, code, vars_
+    return types, es, ss, ops, code, vars_, es2, ss2
 
 
 def gen(rng, tier):
@@ -155,13 +188,13 @@ def gen(rng, tier):
         g = gen_program(rng, tier)
         if g is None:
             continue
-        types, es, ss, ops, code, vars_ = g
+        types, es, ss, ops, code, vars_, es2, ss2 = g
         R = len(es)
         body = ["tk.next(); std::printf(\"P %ld \", caseno); std::fflush(stdout);"]
         for k, ty in enumerate(types):
             body.append("using T%d = %s; using I%d = typename T%d::index_type;" % (k, ty.cpp(), k, k))
         body.append("long nt = tk.next_l(); for (long q = 0; q < nt; ++q) { tk.next(); tk.next(); long r = tk.next_l(); for (long z = 0; z < r + 1; ++z) tk.next(); }")
-        body.append("long R = tk.next_l(); std::vector<drv::i128> es, ss; for (long q = 0; q < R; ++q) es.push_back(tk.next_i()); for (long q = 0; q < R; ++q) ss.push_back(tk.next_i());")
+        body.append("long R = tk.next_l(); std::vector<drv::i128> es, ss, es2, ss2; for (long q = 0; q < R; ++q) es.push_back(tk.next_i()); for (long q = 0; q < R; ++q) ss.push_back(tk.next_i()); for (long q = 0; q < R; ++q) es2.push_back(tk.next_i()); for (long q = 0; q < R; ++q) ss2.push_back(tk.next_i());")
         body.append("std::vector<int> buf(64, 5); int* base = buf.data() + 8; drv::Out o; long cs0 = drv::buf_checksum(buf);")
         ty0 = types[0]
         allv = ", ".join("static_cast<I0>(es[%d])" % k for k in range(R))
@@ -170,6 +203,12 @@ def gen(rng, tier):
             body.append("typename T0::mapping_type m0(typename T0::extents_type(std::array<I0, %d>{%s}), std::array<I0, %d>{%s});" % (R, allv, R, sv))
         else:
             body.append("typename T0::mapping_type m0(typename T0::extents_type(std::array<I0, %d>{%s}));" % (R, allv))
+        allv2 = ", ".join("static_cast<I0>(es2[%d])" % k for k in range(R))
+        if ty0.lay == 2:
+            sv2 = ", ".join("static_cast<I0>(ss2[%d])" % k for k in range(R))
+            body.append("typename T0::mapping_type m1(typename T0::extents_type(std::array<I0, %d>{%s}), std::array<I0, %d>{%s});" % (R, allv2, R, sv2))
+        else:
+            body.append("typename T0::mapping_type m1(typename T0::extents_type(std::array<I0, %d>{%s}));" % (R, allv2))
         live = 0
         for step, (op, line) in enumerate(zip(ops, code), 1):
             body.append(line)
@@ -184,10 +223,14 @@ def gen(rng, tier):
         toks = [None, len(types)]
         for ty in types:
             toks += ty.tokens()
-        toks += [R] + es + ss + [len(ops)]
+        toks += [R] + es + ss + es2 + ss2 + [len(ops)]
         for op in ops:
             toks += op
-        cases.append((pr, toks, {"ops": ops, "types": [t.desc() for t in types], "es": es, "ss": ss, "rank": R, "nvars": len(vars_)}))
+        cases.append((pr, toks, {"ops": ops, "types": [t.desc() for t in types], "es": es, "ss": ss, "es2": es2, "ss2": ss2, "rank": R, "nvars": len(vars_)}))
+        if any(op[0] == 0 and op[2] == 8 for op in ops):
+            hist["pools holding two different mapping values of one type"] += 1
+            if all(p != DYN for p in types[0].pat) and types[0].lay == 2:
+                hist["... of an all-static layout_stride type"] += 1
         for op in ops:
             hist["op=%s" % ["ctor", "copy", "move", "assign", "move-assign", "swap", "convert", "assign-converted"][op[0]]] += 1
         hist["rank=%d" % R] += 1
